@@ -33,3 +33,17 @@ def dense_transforms(n, dr, dk, fwd, bwd):
     W[:, n - 1] = ((-1.0) ** i) * k[n - 1] / 2.0
     MR = bwd * dk * W / r[:, None]                                   # MR[i, j]
     return MF, MR
+
+
+def same_values(a, b, rtol=1e-12):
+    """agreement to rounding: shapes equal, non-finite entries identical, finite ones within rtol relative.  Used where a statement
+    says WHICH inputs a value depends on (elementwise, order independent, repeatable through another route) - not its last bit: a
+    vectorised evaluation may round differently from a one-point evaluation"""
+    import numpy as np
+    a, b = np.asarray(a, dtype=float), np.asarray(b, dtype=float)
+    if a.shape != b.shape:
+        return False
+    fin = np.isfinite(a) & np.isfinite(b)
+    if not np.array_equal(a[~fin], b[~fin], equal_nan=True):
+        return False
+    return bool(np.all(np.abs(a[fin] - b[fin]) <= rtol * np.maximum(np.abs(a[fin]), np.abs(b[fin])) + 1e-300))
